@@ -231,6 +231,8 @@ def run(tier, t0):
     c = prog.crate('minidump_stackwalk')
     fns, derived = totality.in_scope_fns(prog, ['minidump_stackwalk'])
     nontrivial = totality.run_panics(res, prog, fns, 'C20.1', floor_sites=30)
+    if tier == 'thorough':
+        totality.clippy_crosscheck(res, prog, fns, 'C20.1')
     f = need_fn(res, c, MAIN, 'C20.0')
     if f is not None:
         features_table(res, prog, f)
